@@ -251,6 +251,72 @@ static void judge(int qi, int ci, int nk, int bk, int style, const unsigned char
 	}
 }
 
+/* "Some DNS relays will shuffle the answer records in the response" (doc/proto): the records of an MX/SRV answer carry
+   priorities 10, 20, 30.. precisely so that the client can put them back in order.  The same datagram with its answer
+   records rotated by one and reversed must yield exactly what the straight one yielded. */
+static unsigned long long n_reordered_reads, n_reordered_multi;
+
+static int reorder_wire(int mode)
+{
+	static unsigned char tmp[sizeof(wire)];
+	int off[260], len[260], nrec, i, pos, o;
+	if (wire_len < 12) return 0;
+	nrec = (wire[6] << 8) | wire[7];
+	if (nrec < 2 || nrec > 250) return 0;
+	pos = 12;
+	while (pos < wire_len && wire[pos]) pos += wire[pos] + 1;
+	pos += 1 + 4;
+	for (i = 0; i < nrec; i++) {
+		int rdl;
+		if (pos + 12 > wire_len || (wire[pos] & 0xC0) != 0xC0) return 0;
+		rdl = (wire[pos + 10] << 8) | wire[pos + 11];
+		if (pos + 12 + rdl > wire_len) return 0;
+		off[i] = pos; len[i] = 12 + rdl;
+		pos += 12 + rdl;
+	}
+	memcpy(tmp, wire, (size_t) wire_len);
+	o = off[0];
+	for (i = 0; i < nrec; i++) {
+		int j = mode == 0 ? (i + 1) % nrec : nrec - 1 - i;
+		memcpy(wire + o, tmp + off[j], (size_t) len[j]);
+		o += len[j];
+	}
+	return 1;
+}
+
+static void reordered_reads(int qi, int ci, int nk, int bk, int style, int n, const unsigned char *straight, int rl)
+{
+	static unsigned char save[sizeof(wire)];
+	int mode, save_len = wire_len;
+	memcpy(save, wire, (size_t) wire_len);
+	for (mode = 0; mode < 2; mode++) {
+		unsigned char *buf2;
+		struct query q;
+		int rl2;
+		memcpy(wire, save, (size_t) save_len);
+		wire_len = save_len;
+		if (!reorder_wire(mode)) break;
+		n_reordered_multi += (mode == 0);
+		buf2 = malloc((size_t) BUFSZ[bk]);
+		if (!buf2) exit(3);
+		memset(buf2, 0xEE, (size_t) BUFSZ[bk]);
+		memset(&q, 0, sizeof(q));
+		rl2 = drv_cli_read((char *) buf2, BUFSZ[bk], &q);
+		n_reordered_reads++;
+		if (rl2 != rl || (rl > 0 && memcmp(buf2, straight, (size_t) (rl < BUFSZ[bk] ? rl : BUFSZ[bk])))) {
+			char key[64];
+			snprintf(key, sizeof(key), "C09:%s:%c:record-order-dependent", QTN[qi], CODEC[ci]);
+			DRV_VIOL(key, "%s answer, codec %c: with its answer records %s the client extracted %d bytes%s, in the order sent %d"
+				 "\tqtype=%s codec=%c n=%d style=%s name=%s buf=%d seed=%u",
+				 QTN[qi], CODEC[ci], mode == 0 ? "rotated by one" : "reversed", rl2, rl2 == rl ? " (different ones)" : "", rl,
+				 QTN[qi], CODEC[ci], n, STYLE[style], NAMEKIND[nk], BUFSZ[bk], seed);
+		}
+		free(buf2);
+	}
+	memcpy(wire, save, (size_t) save_len);
+	wire_len = save_len;
+}
+
 static void one_length(int qi, int ci, int n)
 {
 	int style, nk, bk, rl;
@@ -289,6 +355,8 @@ static void one_length(int qi, int ci, int n)
 				}
 				progress->stage = 0;
 				judge(qi, ci, nk, bk, style, p, n, buf, rl, wire_len);
+				if (wire_len >= 0 && (QT[qi] == 15 || QT[qi] == 33) && rl > 0)
+					reordered_reads(qi, ci, nk, bk, style, n, buf, rl);
 				free(buf);
 			}
 		}
@@ -313,6 +381,8 @@ static void report(int qi, int ci)
 	DRV_X("calls_on_foreign_fd", n_foreign_fd);
 	DRV_X("order_passes_descending_and_interleaved", order_passes);
 	DRV_X("order_pass_cases", evals_order);
+	DRV_X("reads_with_reordered_records", n_reordered_reads);
+	DRV_X("multi_record_answers_reordered", n_reordered_multi);
 	for (nk = 0; nk < NNAME; nk++) for (bk = 0; bk < NBUF; bk++) for (st = 0; st < NSTYLE; st++) {
 		struct grp *g = &G[qi][ci][nk][bk][st];
 		if (!g->tested) continue;
